@@ -4,7 +4,7 @@
 (* A script is a sequence of declarations; every declaration is a record with    *)
 (* the same fields:                                                              *)
 (*   kind  : "exe" | "slib" | "shlib" | "dlib" | "step" | "copy" | "alias" | "cmd" | *)
-(*           "test" | "default" | "install"                                      *)
+(*           "test" | "tdeps" | "default" | "install"                            *)
 (*   name  : target name (unique)                                                *)
 (*   srcs  : sequence of sources: "s1" "s2" "s3" (files s1.c ...) or "g:<step>"  *)
 (*           (the .c output of an earlier build_step)                            *)
@@ -89,7 +89,8 @@ DownTarget(script, x, mode) == { nm \in Targets(script) : x \in Upstream(script,
 
 \* ---- goals ------------------------------------------------------------------
 Explicit(script) == UNION { ToSet(script[i].deps) : i \in { j \in 1..Len(script) : script[j].kind \in {"default", "install"} } }
-Tested(script) == UNION { ToSet(script[i].deps) : i \in { j \in 1..Len(script) : script[j].kind = "test" } }
+\* (kind "tdeps": test_deps(...) - further built files the `tests` target depends on)
+Tested(script) == UNION { ToSet(script[i].deps) : i \in { j \in 1..Len(script) : script[j].kind \in {"test", "tdeps"} } }
 \* (only the program a test runs - the first word of its command - leaves the default set; further
 \*  built files on the command line are members of `tests` but stay defaults)
 TestedPrimary(script) == { script[i].deps[1] : i \in { j \in 1..Len(script) : script[j].kind = "test" } }
